@@ -200,6 +200,11 @@ func (b *Backend) GetTransactionReceipt(hash common.Hash) (*rpctypes.RPCReceipt,
 		if res.EthTxIndex > 0 {
 			// get gas used of previous txs
 			for txIdx, prevTx := range resBlock.Block.Txs[:res.TxIndex] {
+				// ignore the dropped tx: it never reached execution and consumed no gas
+				if evmtypes.TxWasDroppedPreAnteHandleDueToBlockGasExcess(blockRes.TxsResults[txIdx]) {
+					continue
+				}
+
 				prevCosmosTx, err := b.clientCtx.TxConfig.TxDecoder()(prevTx)
 				if err != nil {
 					b.logger.Debug("decoding failed", "error", err.Error())
